@@ -3,7 +3,8 @@
 # usage: tools/run_mutants.sh "<id> <worktree-prop> <checks>" ...   or without arguments: the standard batch
 cd /verif
 if [ $# -gt 0 ]; then
-  for x in "$@"; do set -- $x; python3 tools/mutant.py /tmp/wt-$2/out/m${1#*-m} $1 $2 $3; done
+  # the source of a seeded change is its directory under seeded/ (or a sub-agent's out directory when it exists)
+  for x in "$@"; do set -- $x; src=seeded/$1; [ -d "${WT:-/nonexistent}-$2/out/m${1#*-m}" ] && src="$WT-$2/out/m${1#*-m}"; python3 tools/mutant.py $src $1 $2 $3; done
   exit 0
 fi
 python3 tools/mutant.py /tmp/wt-C10/out/m2 C10-m2 C10 C10
